@@ -904,3 +904,133 @@ func selOf(ce *ast.CallExpr) *ast.SelectorExpr {
 	se, _ := ast.Unparen(ce.Fun).(*ast.SelectorExpr)
 	return se
 }
+
+// Q6: a model directory is the union of its files. ParseYamlInDir parses every file into its own Namespace and
+// combines them. Every slice field that (*Namespace).UnmarshalYAML fills must be carried into the combined namespace
+// by appending (`combined.F = append(combined.F, file.F...)`) inside the loop over the files: a plain assignment keeps
+// only the last file's definitions, a missing statement drops the field — and the same model written as one file or
+// as several then yields different packages.
+func ruleFilesAreCombined(c *core.Ctx) {
+	const rule = "Q6"
+	c.Rule(rule, "dsl.ParseYamlInDir: every slice field of Namespace that the YAML unmarshaller fills is accumulated over the files with append inside the file loop (never overwritten, never dropped)", 2)
+	p := c.Pkg("pkg/dsl")
+	_, d, _ := c.Func("pkg/dsl", "ParseYamlInDir")
+	if p == nil || d == nil {
+		c.Undecided(rule, "anchor/pkg/dsl.ParseYamlInDir", 0, "anchor not found")
+		return
+	}
+	info := p.TypesInfo
+	// fields filled by the unmarshaller
+	filled := map[string]bool{}
+	for _, od := range c.AllDecls() {
+		if c.DeclPkg(od) != p || od.Recv == nil || od.Name.Name != "UnmarshalYAML" {
+			continue
+		}
+		if nt := core.NamedOf(info.TypeOf(od.Recv.List[0].Type)); nt == nil || nt.Obj().Name() != "Namespace" {
+			continue
+		}
+		recv := info.Defs[od.Recv.List[0].Names[0]]
+		ast.Inspect(od.Body, func(n ast.Node) bool {
+			if as, ok := n.(*ast.AssignStmt); ok {
+				for _, l := range as.Lhs {
+					if se, ok := ast.Unparen(l).(*ast.SelectorExpr); ok && identObj(info, se.X) == recv {
+						if _, isSlice := info.TypeOf(se).Underlying().(*types.Slice); isSlice {
+							filled[se.Sel.Name] = true
+						}
+					}
+				}
+			}
+			return true
+		})
+	}
+	if len(filled) == 0 {
+		c.Undecided(rule, "Namespace.UnmarshalYAML", d.Pos(), "cannot find the slice fields the unmarshaller fills")
+		return
+	}
+	// assignments to a Namespace's slice fields inside loops of ParseYamlInDir and of the helpers it calls in the package
+	type combine struct {
+		field  string
+		append bool
+		inLoop bool
+		pos    token.Pos
+	}
+	var combos []combine
+	for _, fd := range declsCalledInPkg(c, d, 2) {
+		var loops []ast.Node
+		var walk func(n ast.Node)
+		walk = func(n ast.Node) {
+			ast.Inspect(n, func(x ast.Node) bool {
+				switch s := x.(type) {
+				case *ast.RangeStmt:
+					loops = append(loops, s)
+					walk(s.Body)
+					loops = loops[:len(loops)-1]
+					return false
+				case *ast.ForStmt:
+					loops = append(loops, s)
+					walk(s.Body)
+					loops = loops[:len(loops)-1]
+					return false
+				case *ast.AssignStmt:
+					for i, l := range s.Lhs {
+						se, ok := ast.Unparen(l).(*ast.SelectorExpr)
+						if !ok || !filled[se.Sel.Name] {
+							continue
+						}
+						if nt := core.NamedOf(info.TypeOf(se.X)); nt == nil || nt.Obj().Name() != "Namespace" {
+							continue
+						}
+						if i >= len(s.Rhs) {
+							continue
+						}
+						// only statements that copy from another Namespace value are combinations
+						from := false
+						ast.Inspect(s.Rhs[i], func(y ast.Node) bool {
+							if r, ok := y.(*ast.SelectorExpr); ok && r.Sel.Name == se.Sel.Name && types.ExprString(r.X) != types.ExprString(se.X) {
+								if nt := core.NamedOf(info.TypeOf(r.X)); nt != nil && nt.Obj().Name() == "Namespace" {
+									from = true
+								}
+							}
+							return true
+						})
+						if !from {
+							continue
+						}
+						isApp := false
+						if ce, ok := ast.Unparen(s.Rhs[i]).(*ast.CallExpr); ok {
+							if id, ok := ce.Fun.(*ast.Ident); ok && id.Name == "append" && len(ce.Args) >= 2 && types.ExprString(ce.Args[0]) == types.ExprString(se) {
+								isApp = true
+							}
+						}
+						combos = append(combos, combine{se.Sel.Name, isApp, len(loops) > 0, s.Pos()})
+					}
+				}
+				return true
+			})
+		}
+		walk(fd.Body)
+	}
+	var names []string
+	for f := range filled {
+		names = append(names, f)
+	}
+	sort.Strings(names)
+	for _, f := range names {
+		var found *combine
+		for i := range combos {
+			if combos[i].field == f {
+				found = &combos[i]
+				if !combos[i].append {
+					break
+				}
+			}
+		}
+		key := "ParseYamlInDir/combine Namespace." + f
+		if found == nil {
+			c.Bad(rule, key, d.Pos(), "Namespace."+f+" of the parsed files is never carried into the combined namespace")
+			continue
+		}
+		c.Check(found.append && found.inLoop, rule, key, found.pos, "accumulated with append over the files",
+			"Namespace."+f+" is assigned, not appended, when the files are combined: only the definitions of the last file (in sorted order) survive, so a model split over several files loses "+f)
+	}
+}
